@@ -1,16 +1,31 @@
 import GenjaxModel.Proofs.Mcmc
+import GenjaxModel.Proofs.McmcKernels
+import GenjaxModel.Proofs.McmcKernelsReal
+import Mathlib.Algebra.Order.Field.Rat
+import Mathlib.Tactic.NormNum
 /-!
 # C09 — mh, mala and hmc are reversible with respect to the posterior
 
-Partial. What is proved (any linearly ordered field, any dimension, any force field):
+Partial. What is proved (any linearly ordered field, any dimension, any force field / drift):
 * the accept rule `log u < min(0, w)` is the Metropolis–Hastings rule and satisfies detailed balance;
-* n leapfrog steps followed by a momentum flip is an involution (the reversibility HMC's proposal
-  needs; volume preservation of leapfrog — each sub-step is a shear — and the Gaussian proposal
-  density of MALA are standard mathematics, cited, not formalised);
-* a rejected move returns the input state.
-That the proposal actually drawn and the ratio actually applied are those of the MH rule for the
-stated proposals is established per (state, noise, threshold) by the correspondence run with
-scripted internal randomness, and given C03/C04 the model weights are the density ratios.
+* n leapfrog steps followed by a momentum flip is an involution;
+* a rejected move returns the input state;
+* (kernels block, `Model/McmcKernels.lean`) the log acceptance ratio that `mala` computes — model weight
+  + backward − forward Gaussian proposal log density, written as the code writes it, two-level sum over
+  the leaves of the choice tree, gradient at x for the forward and at x' for the backward density — IS
+  the log Metropolis–Hastings ratio [log π(x') + log q(x|x')] − [log π(x) + log q(x'|x)] of the Langevin
+  kernel in unnormalised exponent form (the normalisers cancel in every dimension), and it is
+  antisymmetric under exchange of x and x'; the log acceptance ratio that `hmc` computes is the energy
+  difference H(x,p) − H(x',−p') along the leapfrog trajectory, antisymmetric under the involution
+  (leapfrogⁿ then flip), and 0 when the integrator conserves H; over ℝ both give detailed balance of
+  `min(1, exp(log alpha))` with respect to π·q resp. exp(−H).
+What stays cited mathematics, not formalised: that the Langevin proposal x + (ε²/2)∇ + ε·N(0,I) HAS the
+Gaussian density exp(−|y − x − (ε²/2)∇|²/(2ε²))/(ε√(2π))ⁿ (the Gaussian density formula; C13 proves the
+normal density normalised), that leapfrog preserves phase-space volume (each sub-step is a shear), and
+the passage from detailed balance of densities to invariance of the posterior measure.
+That the proposal actually drawn and the ratio actually applied are those of the model is established per
+(state, noise, threshold) by the correspondence run with scripted internal randomness (driver commands
+`mala-alpha`, `hmc-alpha` on quadratic targets), and given C03/C04 the model weights are the density ratios.
 -/
 namespace Genjax.Mcmc
 variable {K : Type} [Field K] [LinearOrder K] [IsStrictOrderedRing K]
@@ -34,5 +49,141 @@ theorem C09_leapfrog_flip_involution_partial (g : List K → List K)
     (hl : x.length = p.length) :
     flip (leapfrogN g eps n (flip (leapfrogN g eps n (x, p)))) = (x, p) :=
   leapfrogN_flip_involutive g hg eps n x p hl
+
+/-! ## Kernels block: the log acceptance ratios `mala` and `hmc` compute (`Model/McmcKernels.lean`)
+
+`c` is the Gaussian normaliser log(σ√(2π)) kept abstract; `shape` the list of leaf sizes of the selected
+choice tree (the code sums per leaf, then over leaves); `logp` / `grad` the target's log density and
+gradient as functions of the selected coordinates; `DimPres d grad` says `grad` maps ℝᵈ to ℝᵈ. -/
+
+/-- the code's two-level sum (jnp.sum per leaf, tree_reduce over leaves) is the sum over all coordinates
+    whenever the leaf sizes add up to the dimension -/
+theorem C09_kernels_leaf_sum (shape : List Nat) (v : List K) (h : shape.sum = v.length) :
+    treeSum shape v = vsum v := treeSum_eq_vsum shape v h
+
+/-- `mala`: for ANY pair (x, x') the quantity model_weight + backward − forward that the code forms is
+    the log MH ratio of the Langevin kernel written with unnormalised Gaussian exponents -/
+theorem C09_mala_ratio_is_mh_ratio (c eps : K) (he : eps ≠ 0) (shape : List Nat) (logp : List K → K)
+    (grad : List K → List K) (x x' : List K) (hgrad : DimPres x.length grad)
+    (hx : x'.length = x.length) (hs : shape.sum = x.length) :
+    malaLogRatio c eps shape logp grad x x'
+      = (logp x' + langevinLogQ eps x' (grad x') x) - (logp x + langevinLogQ eps x (grad x) x') :=
+  mala_ratio_is_mh_ratio c eps he shape logp grad x x' hgrad hx hs
+
+/-- `mala`: the log alpha of the step made from the noise actually drawn is that MH ratio at the
+    Langevin proposal x' = x + (ε²/2)∇(x) + ε·noise -/
+theorem C09_mala_alpha_is_mh_ratio (c eps : K) (he : eps ≠ 0) (shape : List Nat) (logp : List K → K)
+    (grad : List K → List K) (x noise : List K) (hgrad : DimPres x.length grad)
+    (hn : noise.length = x.length) (hs : shape.sum = x.length) :
+    malaLogAlpha c eps shape logp grad x noise
+      = (logp (malaPropose eps x (grad x) noise)
+            + langevinLogQ eps (malaPropose eps x (grad x) noise)
+                (grad (malaPropose eps x (grad x) noise)) x)
+        - (logp x + langevinLogQ eps x (grad x) (malaPropose eps x (grad x) noise)) :=
+  mala_alpha_is_mh_ratio c eps he shape logp grad x noise hgrad hn hs
+
+/-- `mala`: the Gaussian normaliser cancels — log alpha does not depend on `c`, in every dimension -/
+theorem C09_mala_normaliser_cancels (c c' eps : K) (he : eps ≠ 0) (shape : List Nat)
+    (logp : List K → K) (grad : List K → List K) (x noise : List K)
+    (hgrad : DimPres x.length grad) (hn : noise.length = x.length) (hs : shape.sum = x.length) :
+    malaLogAlpha c eps shape logp grad x noise = malaLogAlpha c' eps shape logp grad x noise :=
+  mala_alpha_normaliser_free c c' eps he shape logp grad x noise hgrad hn hs
+
+/-- `mala`: exchanging x and x' negates the log ratio (antisymmetry of the log MH ratio) -/
+theorem C09_mala_reverse_symmetric (c eps : K) (shape : List Nat) (logp : List K → K)
+    (grad : List K → List K) (x x' : List K) :
+    malaLogRatio c eps shape logp grad x' x = -malaLogRatio c eps shape logp grad x x' :=
+  mala_reverse_symmetric c eps shape logp grad x x'
+
+/-- HMC's proposal map is an involution on ℝᵈ × ℝᵈ for a force field that is only required to map ℝᵈ to
+    ℝᵈ.  Supersedes `C09_leapfrog_flip_involution_partial` (which asks `(g x).length = x.length` for
+    lists of every length and is kept). -/
+theorem C09_hmc_leapfrog_flip_involution (d : Nat) (g : List K → List K) (hg : DimPres d g) (eps : K)
+    (n : Nat) (x p : List K) (hx : x.length = d) (hp : p.length = d) :
+    flip (leapfrogN g eps n (flip (leapfrogN g eps n (x, p)))) = (x, p) :=
+  leapfrogN_flip_involutive_d hg eps n (s := (x, p)) ⟨hx, hp⟩
+
+/-- `hmc`: log alpha = (log π(x') − ½|p'|²) − (log π(x) − ½|p|²) with (x', p') the end of the leapfrog
+    trajectory; the normalisers of the momentum density cancel -/
+theorem C09_hmc_alpha_is_energy_difference (c eps : K) (n : Nat) (shape : List Nat)
+    (logp : List K → K) (grad : List K → List K) (x p : List K) (hgrad : DimPres x.length grad)
+    (hl : p.length = x.length) (hs : shape.sum = x.length) :
+    hmcLogAlpha c eps n shape logp grad x p
+      = (logp (leapfrogN grad eps n (x, p)).1 - kinetic (leapfrogN grad eps n (x, p)).2)
+        - (logp x - kinetic p) :=
+  hmc_alpha_is_energy_difference c eps n shape logp grad x p hgrad hl hs
+
+/-- `hmc`: run from the proposed point (x*, p*) = flip (leapfrogⁿ (x, p)) the kernel proposes (x, p)
+    back and computes the negated log alpha (H(x',−p') − H(x,p) on the reversed trajectory) -/
+theorem C09_hmc_reverse_symmetric (c eps : K) (n : Nat) (shape : List Nat) (logp : List K → K)
+    (grad : List K → List K) (x p : List K) (hgrad : DimPres x.length grad)
+    (hl : p.length = x.length) (hs : shape.sum = x.length) :
+    hmcStep c eps n shape logp grad (flip (leapfrogN grad eps n (x, p))).1
+        (flip (leapfrogN grad eps n (x, p))).2
+      = ((x, p), -hmcLogAlpha c eps n shape logp grad x p) :=
+  hmc_reverse_symmetric c eps n shape logp grad x p hgrad hl hs
+
+/-- `hmc`: if the integrator conserves the Hamiltonian along the run, log alpha = 0 (always accept) -/
+theorem C09_hmc_exact_for_constant_energy (c eps : K) (n : Nat) (shape : List Nat)
+    (logp : List K → K) (grad : List K → List K) (x p : List K) (hgrad : DimPres x.length grad)
+    (hl : p.length = x.length) (hs : shape.sum = x.length)
+    (hH : energy logp (leapfrogN grad eps n (x, p)) = energy logp (x, p)) :
+    hmcLogAlpha c eps n shape logp grad x p = 0 :=
+  hmc_exact_for_constant_energy c eps n shape logp grad x p hgrad hl hs hH
+
+/-- the driver's quadratic targets satisfy the dimension hypothesis of the theorems above -/
+theorem C09_kernels_quadratic_target_dim (A : List (List K)) (b : List K) (d : Nat)
+    (hA : A.length = d) (hb : b.length = d) : DimPres d (quadGrad A b) :=
+  DimPres_quadGrad A b d hA hb
+
+/-! ### over ℝ: detailed balance of the accept probability min(1, exp(log alpha)) -/
+
+/-- `mala`: π(x) q(x'|x) min(1, e^{α(x→x')}) = π(x') q(x|x') min(1, e^{α(x'→x)}), q the unnormalised
+    Langevin Gaussian kernel, α the log alpha the code computes -/
+theorem C09_mala_detailed_balance (c eps : ℝ) (he : eps ≠ 0) (shape : List Nat)
+    (logp : List ℝ → ℝ) (grad : List ℝ → List ℝ) (x x' : List ℝ) (hgrad : DimPres x.length grad)
+    (hx : x'.length = x.length) (hs : shape.sum = x.length) :
+    Real.exp (logp x + langevinLogQ eps x (grad x) x')
+        * min 1 (Real.exp (malaLogRatio c eps shape logp grad x x'))
+      = Real.exp (logp x' + langevinLogQ eps x' (grad x') x)
+        * min 1 (Real.exp (malaLogRatio c eps shape logp grad x' x)) :=
+  mala_detailed_balance_real c eps he shape logp grad x x' hgrad hx hs
+
+/-- `hmc`: e^{−H(s)} min(1, e^{α(s)}) = e^{−H(s*)} min(1, e^{α(s*)}) for s* = flip (leapfrogⁿ s) -/
+theorem C09_hmc_detailed_balance (c eps : ℝ) (n : Nat) (shape : List Nat) (logp : List ℝ → ℝ)
+    (grad : List ℝ → List ℝ) (x p : List ℝ) (hgrad : DimPres x.length grad)
+    (hl : p.length = x.length) (hs : shape.sum = x.length) :
+    Real.exp (-energy logp (x, p)) * min 1 (Real.exp (hmcLogAlpha c eps n shape logp grad x p))
+      = Real.exp (-energy logp (flip (leapfrogN grad eps n (x, p))))
+        * min 1 (Real.exp (hmcLogAlpha c eps n shape logp grad
+            (flip (leapfrogN grad eps n (x, p))).1 (flip (leapfrogN grad eps n (x, p))).2)) :=
+  hmc_detailed_balance_real c eps n shape logp grad x p hgrad hl hs
+
+/-! ### non-vacuity: the hypotheses hold and the quantities are non-trivial on concrete instances (ℚ) -/
+
+/-- the 2-d quadratic target −½(x₀² + 2x₁²) of the driver smoke test: hypotheses of the mala theorems -/
+example : (1/2 : ℚ) ≠ 0 ∧ DimPres ([1, -1/2] : List ℚ).length (quadGrad ([[1, 0], [0, 2]] : List (List ℚ)) [0, 0])
+    ∧ ([1/4, -3/4] : List ℚ).length = ([1, -1/2] : List ℚ).length
+    ∧ ([1, 1] : List Nat).sum = ([1, -1/2] : List ℚ).length :=
+  ⟨by norm_num, DimPres_quadGrad _ _ 2 rfl rfl, rfl, rfl⟩
+
+/-- … and there the log alpha is a non-zero number that does not depend on the normaliser -/
+example : malaLogAlpha (7/3 : ℚ) (1/2) [1, 1] (quadLogp 0 [[1, 0], [0, 2]] [0, 0])
+      (quadGrad [[1, 0], [0, 2]] [0, 0]) [1, -1/2] [1/4, -3/4] = -5/128
+    ∧ malaLogAlpha (0 : ℚ) (1/2) [2] (quadLogp 0 [[1, 0], [0, 2]] [0, 0])
+      (quadGrad [[1, 0], [0, 2]] [0, 0]) [1, -1/2] [1/4, -3/4] = -5/128 := by
+  decide +kernel
+
+/-- hmc on the harmonic oscillator log π = −½x², ε = 2, from (x, p) = (1, 1): one leapfrog step lands on
+    (1, −1) with the same energy, so `C09_hmc_exact_for_constant_energy` applies non-trivially … -/
+example : energy (quadLogp (0 : ℚ) [[1]] [0]) (leapfrogN (quadGrad [[1]] [0]) 2 1 ([1], [1]))
+      = energy (quadLogp (0 : ℚ) [[1]] [0]) ([1], [1])
+    ∧ leapfrogN (quadGrad [[1]] [0]) (2 : ℚ) 1 ([1], [1]) = ([1], [-1]) := by
+  decide +kernel
+
+/-- … while from (1, 1/2) with ε = 1/4, 3 steps, the energy error is non-zero and log alpha with it -/
+example : hmcLogAlpha (5 : ℚ) (1/4) 3 [1] (quadLogp 0 [[1]] [0]) (quadGrad [[1]] [0]) [1] [1/2]
+    ≠ 0 := by
+  decide +kernel
 
 end Genjax.Mcmc
